@@ -387,6 +387,10 @@ impl<'a> Interp<'a> {
                 }
                 Val::Tup(vs)
             }
+            Expr::Permute(a, _, picks) => match self.expr(fr, a)? {
+                Val::Tup(vs) => Val::Tup(picks.iter().map(|k| vs[*k].clone()).collect()),
+                _ => panic!("permutation of non-tuple"),
+            },
             Expr::TupleField(a, i, _) | Expr::Field(a, _, i) => match self.expr(fr, a)? {
                 Val::Tup(mut vs) => vs.swap_remove(*i),
                 _ => panic!("projection of non-tuple"),
